@@ -118,9 +118,9 @@ def check_type_object(t: typing.Any, spec: typing.Any, counters: typing.Dict[str
             c01.run_query(inner_b, inner_oracle, q, counters, tag=":inner")
 
 
-def check_api(case: typing.Any, ctx: Ctx) -> Info:
+def check_api(case: typing.Any, ctx: Ctx, share: bool = False) -> Info:
     spec = layout.freeze(case)
-    builder = ApiBuilder()
+    builder = ApiBuilder(share=share)
     guarded(builder.build, spec, what="construct")
     for s, t in builder.by_spec:
         if s[0] in ("byte", "utf8", "void", "bool", "uint", "int", "float"):
@@ -134,10 +134,23 @@ def check_api(case: typing.Any, ctx: Ctx) -> Info:
     return Info(nontrivial, ["api"] + classes, sample=layout.type_string(spec))
 
 
-def check_text(case: typing.Any, ctx: Ctx) -> Info:
+def check_api_shared(case: typing.Any, ctx: Ctx) -> Info:
+    """Composites that occur several times are built once and the one type object is used at every place."""
+    return check_api(case, ctx, share=True)
+
+
+def check_text_shared(case: typing.Any, ctx: Ctx) -> Info:
+    return check_text(case, ctx, share=True)
+
+
+def check_text(case: typing.Any, ctx: Ctx, share: bool = False) -> Info:
     import pydsdl
 
     spec = case  # ids of sub-lists matter for the text builder: no freezing before emission
+    if share:
+        from ..gen.materialize import intern_spec
+
+        spec = intern_spec(spec)  # one definition per distinct composite, referred to from every place it occurs
     d = ctx.scratch()
     try:
         tb = TextBuilder(d)
@@ -258,7 +271,25 @@ def _stress_specs() -> st.SearchStrategy:
         return ["struct", [["x", ["union", [["sparse", f1 if w1 > w2 else f2], ["dense", f2 if w1 > w2 else f1]]]], ["y", ["uint", 8, "sat"]]]]
 
     collide = st.tuples(st.sampled_from([8, 16, 32, 64]), st.integers(1, 4), st.integers(1, 4), st.booleans(), st.booleans()).filter(lambda t: t[1] != t[2]).map(collide_case)
-    return st.one_of(padding, padding, collide)
+    # the same composite as the element of a fixed array of exactly 8 (or a few other counts) and as a member that gets padded to a byte -
+    # one object for both where composites are shared (`stress-*` parts), in either construction order
+    members = st.sampled_from([
+        ["struct", [["k", ["uint", 8, "sat"]]]],
+        ["struct", [["k", ["uint", 5, "sat"]], ["v", ["var", ["uint", 3, "sat"], 2]]]],
+        ["union", [["p", ["uint", 3, "sat"]], ["q", ["uint", 16, "sat"]]]],
+        ["struct", [["v", ["var", ["uint", 8, "sat"], 3]]]],
+        ["delim", ["struct", [["k", ["bool"]]]], 1],
+        ["struct", []],
+    ])
+
+    def shared_case(t: typing.Tuple[typing.Any, int, bool, bool, bool]) -> typing.Any:
+        member, count, array_first, extra, variable = t
+        arr = ["var" if variable else "fixed", member, count]
+        wrap = ["struct", [["s", member]] + ([["x", ["uint", 8, "sat"]]] if extra else [])]
+        return ["struct", [["arr", arr], ["w", wrap]] if array_first else [["w", wrap], ["arr", arr]]]
+
+    shared = st.tuples(members, st.sampled_from([8, 8, 8, 1, 2, 7, 9, 16]), st.booleans(), st.booleans(), st.sampled_from([False, False, True])).map(shared_case)
+    return st.one_of(padding, padding, collide, shared)
 
 
 def parts(ctx: Ctx) -> typing.List[Part]:
@@ -275,6 +306,6 @@ def parts(ctx: Ctx) -> typing.List[Part]:
         Part("text", text_specs, check_text, weight=2, cost=6.0),
         Part("extent", extent_cases, check_extent, weight=1),
         Part("grid", None, check_grid, weight=0, grid=_grid),
-        Part("stress-api", _stress_specs(), check_api, weight=2),
-        Part("stress-text", _stress_specs(), check_text, weight=1, cost=5.0),
+        Part("stress-api", _stress_specs(), check_api_shared, weight=2),
+        Part("stress-text", _stress_specs(), check_text_shared, weight=1, cost=5.0),
     ]
